@@ -133,6 +133,9 @@ pub trait Extra {
 	async fn unit(&self, a: Vec<String>) -> RpcResult<()>;
 	#[method(name = "midmap", param_kind = map)]
 	async fn midmap(&self, a: Option<Point>, b: u64) -> RpcResult<(Option<Point>, u64)>;
+	/// raw identifiers as parameter names, by name
+	#[method(name = "rawid", param_kind = map)]
+	fn rawid(&self, r#type: String, r#match: Option<u8>) -> RpcResult<(String, Option<u8>)>;
 }
 
 #[rpc(client, server, namespace = "gen")]
@@ -237,6 +240,9 @@ impl ExtraServer for Srv {
 	async fn midmap(&self, a: Option<Point>, b: u64) -> RpcResult<(Option<Point>, u64)> {
 		self.rec("midmap", (a, b))
 	}
+	fn rawid(&self, r#type: String, r#match: Option<u8>) -> RpcResult<(String, Option<u8>)> {
+		self.rec("rawid", (r#type, r#match))
+	}
 }
 
 #[async_trait]
@@ -308,6 +314,7 @@ pub struct LbSender {
 	methods: Methods,
 	tx: mpsc::UnboundedSender<String>,
 	wire: Arc<Mutex<Vec<String>>>,
+	replies: Arc<Mutex<Vec<String>>>,
 }
 pub struct LbReceiver {
 	rx: mpsc::UnboundedReceiver<String>,
@@ -319,9 +326,11 @@ impl TransportSenderT for LbSender {
 		self.wire.lock().push(msg.clone());
 		let methods = self.methods.clone();
 		let tx = self.tx.clone();
+		let replies = self.replies.clone();
 		async move {
 			tokio::spawn(async move {
 				if let Ok((resp, mut rx)) = methods.raw_json_request(&msg, 1024).await {
+					replies.lock().push(resp.get().to_string());
 					let _ = tx.send(resp.get().to_string());
 					while let Some(n) = rx.recv().await {
 						if tx.send(n.get().to_string()).is_err() {
@@ -351,6 +360,21 @@ pub struct Loop {
 	pub client: Client,
 	pub state: Arc<State>,
 	pub wire: Arc<Mutex<Vec<String>>>,
+	/// the direct replies of the server module, in the order they were produced
+	pub replies: Arc<Mutex<Vec<String>>>,
+}
+
+impl Loop {
+	/// the unsubscribe request (the last message the client wrote) was answered `true`
+	pub fn unsubscribe_acknowledged(&self) -> Result<(), String> {
+		let last: Value = self.wire.lock().last().and_then(|s| serde_json::from_str(s).ok()).unwrap_or(Value::Null);
+		let id = last["id"].clone();
+		let reply = self.replies.lock().iter().filter_map(|r| serde_json::from_str::<Value>(r).ok()).find(|r| r["id"] == id);
+		match reply {
+			Some(r) if r["result"] == json!(true) => Ok(()),
+			other => Err(format!("unsubscribe request {last} was answered {other:?}")),
+		}
+	}
 }
 
 pub fn loopback() -> Loop {
@@ -358,8 +382,9 @@ pub fn loopback() -> Loop {
 	let methods = build_methods(Srv(state.clone()));
 	let (tx, rx) = mpsc::unbounded_channel();
 	let wire = Arc::new(Mutex::new(vec![]));
-	let client = ClientBuilder::default().build_with_tokio(LbSender { methods, tx, wire: wire.clone() }, LbReceiver { rx });
-	Loop { client, state, wire }
+	let replies = Arc::new(Mutex::new(vec![]));
+	let client = ClientBuilder::default().build_with_tokio(LbSender { methods, tx, wire: wire.clone(), replies: replies.clone() }, LbReceiver { rx });
+	Loop { client, state, wire, replies }
 }
 
 // ---------------------------------------------------------------------------------------------
@@ -388,6 +413,7 @@ pub enum Call17 {
 	MidMap(Option<Point>, u64),
 	GenCall(Shape, Option<Tagged>),
 	GenSub(Shape, Vec<Tagged>),
+	RawId(String, Option<u8>),
 }
 
 #[derive(Clone, Debug, Serialize, Deserialize)]
@@ -432,6 +458,7 @@ fn arb_call() -> BoxedStrategy<Call17> {
 		2 => (proptest::option::of(arb_point()), arb_u64()).prop_map(|(a, b)| Call17::MidMap(a, b)),
 		2 => (arb_shape(), proptest::option::of(arb_tagged())).prop_map(|(a, b)| Call17::GenCall(a, b)),
 		2 => (arb_shape(), proptest::collection::vec(arb_tagged(), 0..4)).prop_map(|(a, b)| Call17::GenSub(a, b)),
+		2 => (arb_s(), proptest::option::of(any::<u8>())).prop_map(|(a, b)| Call17::RawId(a, b)),
 	]
 	.boxed()
 }
@@ -704,6 +731,10 @@ impl SubCheck for Stubs {
 								Err(e) => obs.fail("c17/subscription-items-missing", format!("{e}; {}", desc())),
 							}
 							let _ = s.unsubscribe().await;
+							crate::fix::server::settle().await;
+							if let Err(e) = lb.unsubscribe_acknowledged() {
+								obs.fail("c17/unsubscribe-not-acknowledged", format!("{e}; {}", desc()));
+							}
 						}
 					}
 					let calls = lb.state.calls.lock();
@@ -732,6 +763,10 @@ impl SubCheck for Stubs {
 								Err(e) => obs.fail("c17/subscription-items-missing", format!("{e}; {}", desc())),
 							}
 							let _ = s.unsubscribe().await;
+							crate::fix::server::settle().await;
+							if let Err(e) = lb.unsubscribe_acknowledged() {
+								obs.fail("c17/unsubscribe-not-acknowledged", format!("{e}; {}", desc()));
+							}
 						}
 					}
 					let calls = lb.state.calls.lock();
@@ -754,6 +789,10 @@ impl SubCheck for Stubs {
 								Err(e) => obs.fail("c17/subscription-items-missing", format!("{e}; {}", desc())),
 							}
 							let _ = s.unsubscribe().await;
+							crate::fix::server::settle().await;
+							if let Err(e) = lb.unsubscribe_acknowledged() {
+								obs.fail("c17/unsubscribe-not-acknowledged", format!("{e}; {}", desc()));
+							}
 						}
 					}
 					let calls = lb.state.calls.lock();
@@ -798,6 +837,12 @@ impl SubCheck for Stubs {
 						obs.check(first["params"].is_object(), "c17/by-name-encoding-not-used", || format!("{first}"));
 					}
 				}
+				Call17::RawId(a, b) => {
+					opt_variation = b.is_none();
+					non_scalar = b.is_some();
+					let got = seen(ExtraClient::rawid(c, a.clone(), *b).await);
+					judge!("rawid", Some("e_rawid"), (a.clone(), *b), (a.clone(), *b), got);
+				}
 				Call17::GenCall(a, b) => {
 					non_scalar = true;
 					opt_variation = b.is_none();
@@ -818,6 +863,10 @@ impl SubCheck for Stubs {
 								Err(e) => obs.fail("c17/subscription-items-missing", format!("{e}; {}", desc())),
 							}
 							let _ = s.unsubscribe().await;
+							crate::fix::server::settle().await;
+							if let Err(e) = lb.unsubscribe_acknowledged() {
+								obs.fail("c17/unsubscribe-not-acknowledged", format!("{e}; {}", desc()));
+							}
 						}
 					}
 					let calls = lb.state.calls.lock();
@@ -886,7 +935,7 @@ fn to_camel(s: &str) -> String {
 }
 
 pub fn check(ctx: &mut Ctx) {
-	ctx.rule = "programs: a fixed family of 6 #[rpc(client, server)] traits / 20 methods compiled into the harness (0..4 params, trailing and non-trailing Options, unit return, a generic trait with a generic subscription item, param_kind array/map, #[argument(rename)], namespace with default and custom separator, aliases, sync/async/blocking, with_extensions, \
+	ctx.rule = "programs: a fixed family of 6 #[rpc(client, server)] traits / 21 methods compiled into the harness (0..4 params, trailing and non-trailing Options, unit return, a generic trait with a generic subscription item, param_kind array/map, #[argument(rename)], namespace with default and custom separator, aliases, sync/async/blocking, with_extensions, \
 		subscriptions with params / item types / notification-name override / unsubscribe aliases / by-name params / sync handler); inputs: generated argument values (integers at type boundaries, Unicode strings, nested structs, externally and internally tagged enums, Vec, BTreeMap, Option, tuples) and generated server results/errors. \
 		Each call goes stub -> real async client -> wire text -> Methods::raw_json_request -> server trait impl (which records its arguments). Also hand-built requests the stubs never emit: aliases, by-name requests with declared / snake_case / camelCase keys, trailing optionals omitted in arrays and objects. \
 		Oracle: the server method of that name ran once with arguments equal (PartialEq) to the stub's, the wire method name is the declared one, the client gets exactly the returned value / error object, subscription items arrive in order. Non-trivial = a non-scalar argument or an optional-tail variation; distinct by case value."
